@@ -29,14 +29,19 @@ Definition addr_bits (f : fam) (w0 w1 w2 w3 : N) : bits :=
   | V6 => word_bits w0 ++ word_bits w1 ++ word_bits w2 ++ word_bits w3
   end.
 
+(* numbers of the implementation become unary naturals only through this
+   clamp: an out-of-range value (e.g. the length of an invalid netip.Prefix in
+   a listing) must give a wrong but SMALL number, not a 2^32-long unary one *)
+Definition small (n : N) : nat := N.to_nat (N.min n 1023).
+
 (* [code; fam; cidr; peer; w0; w1; w2; w3]   code 1 insert, 2 remove, 3 remove-by-peer *)
 Definition dec_op (l : list N) : option op :=
   match l with
   | [c; f; cidr; x; w0; w1; w2; w3] =>
       let a := addr_bits (fam_of f) w0 w1 w2 w3 in
-      if N.eqb c 1 then Some (Insert (fam_of f) a (N.to_nat cidr) (N.to_nat x))
-      else if N.eqb c 2 then Some (Remove (fam_of f) a (N.to_nat cidr) (N.to_nat x))
-      else if N.eqb c 3 then Some (RemoveByPeer (N.to_nat x))
+      if N.eqb c 1 then Some (Insert (fam_of f) a (small cidr) (small x))
+      else if N.eqb c 2 then Some (Remove (fam_of f) a (small cidr) (small x))
+      else if N.eqb c 3 then Some (RemoveByPeer (small x))
       else None
   | _ => None
   end.
@@ -49,7 +54,7 @@ Fixpoint dec_probes (l : list N) : list (fam * bits) :=
   end.
 
 (* lookup answers: 0 = nil, k+1 = peer k *)
-Definition dec_ans (n : N) : option peer := if N.eqb n 0 then None else Some (N.to_nat (n - 1)).
+Definition dec_ans (n : N) : option peer := if N.eqb n 0 then None else Some (small (n - 1)).
 
 (* an entry / a node as the implementation shows it: cidr and the full-width
    stored address (which must be masked) *)
@@ -61,7 +66,7 @@ Definition pad (w : nat) (p : bits) : ent := (length p, p ++ repeat false (w - l
 Fixpoint dec_listing (l : list N) : list (fam * ent) :=
   match l with
   | f :: c :: w0 :: w1 :: w2 :: w3 :: t =>
-      (fam_of f, (N.to_nat c, addr_bits (fam_of f) w0 w1 w2 w3)) :: dec_listing t
+      (fam_of f, (small c, addr_bits (fam_of f) w0 w1 w2 w3)) :: dec_listing t
   | _ => []
   end.
 Definition fam_eqb (f g : fam) : bool := match f, g with V4, V4 | V6, V6 => true | _, _ => false end.
@@ -108,7 +113,7 @@ Fixpoint dec_shape4 (l : list N) : list tok :=
   | c :: t =>
       if N.eqb c 0 then TL :: dec_shape4 t else
       match t with
-      | x :: w0 :: t' => TN (N.to_nat (c - 1), word_bits w0) (dec_ans x) :: dec_shape4 t'
+      | x :: w0 :: t' => TN (small (c - 1), word_bits w0) (dec_ans x) :: dec_shape4 t'
       | _ => [TBad]
       end
   end.
@@ -119,7 +124,7 @@ Fixpoint dec_shape6 (l : list N) : list tok :=
       if N.eqb c 0 then TL :: dec_shape6 t else
       match t with
       | x :: w0 :: w1 :: w2 :: w3 :: t' =>
-          TN (N.to_nat (c - 1), addr_bits V6 w0 w1 w2 w3) (dec_ans x) :: dec_shape6 t'
+          TN (small (c - 1), addr_bits V6 w0 w1 w2 w3) (dec_ans x) :: dec_shape6 t'
       | _ => [TBad]
       end
   end.
@@ -191,7 +196,7 @@ End Obs.
    theorem lookup_stable_under_unrelated_ops) *)
 Fixpoint dec_want (l : list N) : list (nat * option peer) :=
   match l with
-  | i :: w :: t => (N.to_nat i, dec_ans w) :: dec_want t
+  | i :: w :: t => (small i, dec_ans w) :: dec_want t
   | _ => []
   end.
 Definition plan_ok (probes : list (fam * bits)) (sp : sstate) (cw : list (nat * option peer)) : bool :=
